@@ -80,6 +80,7 @@ void vk_alarm(unsigned ms);    /* runaway protection; 0 cancels */
 #define VC_STACK 2
 #define VC_CAPVEC 4
 #define VC_AVX512 8
+#define VC_TRACE 16        /* single-step the callee and record executed instruction addresses (ISA measurement) */
 #define VC_DEAD 65536
 typedef struct vcall_env {
 	uint64_t mode, poison, nstack;
@@ -122,6 +123,15 @@ void vk_sec_add(const uint8_t *p16, const char *name, int idx);
 void vk_sec_add_key(const uint8_t *key, int keybits);   /* raw key halves + all enc/dec round keys */
 void vk_sec_scan(const char *fn, const char *shape);     /* needs VC_STACK|VC_CAPVEC call mode */
 
+/* ---------- ISA measurement (C12): which instruction-set classes does a family function execute ---------- */
+enum { ISA_SSE41, ISA_SSE42, ISA_AVX, ISA_AVX2, ISA_AVX512F, ISA_AVX512VL, ISA_AVX512BW, ISA_AVX512DQ, ISA_AVX512CD, ISA_SHA, ISA_VAES,
+       ISA_VPCLMULQDQ, ISA_GFNI, ISA_VBMI2, ISA_VNNI, ISA_BITALG, ISA_VPOPCNTDQ, ISA_ZMM_STATE, ISA_YMM_STATE,
+       ISA_INFO_SSSE3, ISA_INFO_AESNI, ISA_INFO_PCLMUL, ISA_INFO_BMI, ISA_NCLASS };
+extern const char *vk_isa_names[ISA_NCLASS];
+void vk_trace_enable(void);          /* VCALLs from now on run single-stepped; results emitted by vk_finish as type "isa" */
+extern int vk_trace_on;
+extern int vk_want_trace;       /* --trace-isa given: engines reduce their grids and call vk_trace_enable() */
+
 /* ---------- virtual CPU ---------- */
 extern uint32_t vcpu_mode, vcpu_l1[4], vcpu_l7[4];
 extern uint64_t vcpu_xcr0, vcpu_ncpuid, vcpu_nxgetbv, vcpu_xgetbv_ud;
@@ -131,7 +141,7 @@ enum { VK_F_BASE, VK_F_SSE, VK_F_AVX, VK_F_AVX2, VK_F_AVX512, VK_F_SHANI, VK_F_A
 int vk_host_can(int fam);
 
 /* ---------- symbol lookup (generated from nm of the fresh library) ---------- */
-struct vk_sym { const char *name; void *addr; };
+struct vk_sym { const char *name; void *addr; char type; };
 extern const struct vk_sym vk_symtab[];
 extern const unsigned vk_nsyms;
 void *vk_sym(const char *name);                 /* NULL if absent */
